@@ -419,12 +419,14 @@ fn observe(prop: &str, st: &mut Stats, sub: &Subject, rs: &RunSpec, t: &Trace) {
             if let Some(k) = oracles::starts_after_signal(t) {
                 let before = !t.log[..t.log.iter().position(|e| *e == Ev::Signal).unwrap()].iter().any(|e| matches!(e, Ev::Poll | Ev::Spurious));
                 let b = oracles::intr_bound(rs, before);
-                let inside = rs.api.is_concurrent_call() && matches!(rs.signal, SignalPlan::AtStart(_) | SignalPlan::AtEnd(_));
+                let sig_pos = t.log.iter().position(|e| *e == Ev::Signal).unwrap();
+                let last_pending_woken = t.log[..sig_pos].iter().rev().find_map(|e| if let Ev::Pending { woken } = e { Some(*woken) } else { None }).unwrap_or(false);
+                let inside = rs.api.is_concurrent_call() && !before && (matches!(rs.signal, SignalPlan::AtStart(_) | SignalPlan::AtEnd(_)) || last_pending_woken);
                 if inside {
                     // counted from the signal itself, i.e. including functions dequeued before it;
                     // the oracle counts from the next quiescent point (see o_intr)
-                    st.count(&format!("after_signal_sent_inside_future_of_concurrent_call.{:?}={}", rs.intr, k));
-                    st.count("signals_sent_inside_future_of_concurrent_call");
+                    st.count(&format!("after_signal_sent_while_concurrent_call_not_quiescent.{:?}={}", rs.intr, k));
+                    st.count("signals_sent_while_concurrent_call_not_quiescent");
                 } else {
                     st.count(&format!("after_signal.{:?}.inc{}.{}={}", rs.intr, rs.include as u8, if before { "before_call" } else { "midway" }, k));
                     if let Some(b) = b {
@@ -490,6 +492,37 @@ fn observe(prop: &str, st: &mut Stats, sub: &Subject, rs: &RunSpec, t: &Trace) {
     if rs.limit.is_some() {
         st.count("runs_with_limit");
     }
+}
+
+
+/// C10 "any limit >= 1 still lets every graph run to completion": a limited run that blocks
+/// (deadlock / lost wake-up / livelock, decided logically by the director) is re-executed without
+/// the limit under three fresh schedules; if all of those return, the limit is what blocked it.
+fn c10_limit_blocks(st: &mut Stats, sub: &mut Subject, rs: &RunSpec, tape: &Tape, t: &Trace, seed: u64) {
+    if !rs.api.is_concurrent_call() || !matches!(rs.limit, Some(l) if l >= 1) {
+        return;
+    }
+    if !matches!(t.term, Term::Deadlock | Term::Livelock | Term::LostWake(_)) || oracles::root_dropped(t) {
+        return;
+    }
+    let mut unl = rs.clone();
+    unl.limit = None;
+    unl.allow_drop = false;
+    for k in 0..3u64 {
+        let mut tp = Tape::random(mix(seed ^ 0xd1ff, k));
+        let t2 = crate::exec::run_case(&mut sub.g, &unl, &mut tp);
+        if t2.term != Term::Returned {
+            st.count("limited_run_blocked_but_so_does_the_unlimited_one");
+            return;
+        }
+    }
+    let v = Violation {
+        prop: "C10",
+        kind: "limit-blocks-completion",
+        detail: format!("limit {:?}: the run never returns ({:?}) although the same run without a limit returns under 3 schedules", rs.limit, t.term),
+    };
+    let case = format!("g={}|r={}|t={}", sub.gs.encode(), rs.encode(), tape.encode());
+    st.violation(&v, case, crate::exec::log_str(&t.log, 200));
 }
 
 fn fixed_access(n: usize, which: usize) -> (Vec<u8>, Vec<u8>) {
@@ -563,9 +596,18 @@ pub fn run(opts: &Opts, cfg_b: bool) -> Option<Stats> {
     let rnd = par_for(opts.jobs, cases, 64, Some(deadline), |st: &mut Stats, i: u64, slot: &Slot| {
         let mut rng = Rng::new(mix(seed, i));
         let wide = plan_ref.wide_every > 0 && i % plan_ref.wide_every == 0;
+        // "medium" graphs: more functions ready at once than any small batch constant (8, 16, 32)
+        let mid = !wide && i % 40 == 13;
         let gs = if wide {
             let n = *rng.pick(&plan_ref.wide_sizes);
             gen::wide_graph(&mut rng, n)
+        } else if mid {
+            let fam = *rng.pick(&[Family::Isolated, Family::FanOut, Family::FanIn, Family::Layered, Family::SparseEr]);
+            let n = rng.range(17, 48);
+            let mut gp = plan_ref.gprof;
+            gp.hostile_calls = false;
+            gp.write_pct = gp.write_pct.min(25);
+            gen::random_graph_of(&mut rng, fam, n, &gp)
         } else if !plan_ref.bias.is_empty() && rng.chance(1, 2) {
             let fam = *rng.pick(&plan_ref.bias);
             let n = rng.range(plan_ref.gprof.min_n, plan_ref.gprof.max_n);
@@ -575,11 +617,17 @@ pub fn run(opts: &Opts, cfg_b: bool) -> Option<Stats> {
         };
         let n = gs.n;
         let mut rs = gen::random_run(&mut rng, n, &plan_ref.rprof, cfg_b);
+        if mid {
+            rs.batch = true;
+            rs.greedy = rs.api.is_stream() && rng.chance(1, 2);
+            st.count("medium_graph_runs");
+        }
         if wide {
             // keep wide runs linear: everything ready at once, or held and released in bulk
             rs.modes = if rng.chance(1, 2) { vec![Mode::Ready; n] } else { vec![Mode::Held; n] };
             rs.batch = true;
             rs.spurious = 0;
+            rs.greedy = rs.api.is_stream() && rng.chance(2, 3);
             if rs.fail.len() > 3 && !rng.chance(1, 3) {
                 rs.fail.truncate(3);
             }
@@ -597,6 +645,9 @@ pub fn run(opts: &Opts, cfg_b: bool) -> Option<Stats> {
         let mut tape = Tape::random(mix(seed ^ 0x5eed, i));
         let t = exec_case(st, &mut sub, &rs, &mut tape, check, slot);
         observe(prop, st, &sub, &rs, &t);
+        if prop == "C10" {
+            c10_limit_blocks(st, &mut sub, &rs, &tape, &t, mix(seed, i));
+        }
         if st.samples.len() < MAX_SAMPLES / 2 && n >= 3 && n <= 8 && t.log.len() > 10 && i % 97 == 0 {
             st.samples.push(sample_json(&sub, &rs, &tape, &t));
         }
@@ -694,10 +745,20 @@ pub fn run(opts: &Opts, cfg_b: bool) -> Option<Stats> {
             st.add("cross_thread.yields", xs.yields);
             st.add("events", xs.yields + xs.cross_thread_drops);
             for v in out.iter().filter(|v| v.prop == "C05") {
-                st.violation(v, format!("g={}|xthread_seed={}", gs.encode(), mix(seed, i)), String::new());
+                st.violation(v, format!("g={}|xthread_seed={}|workers={}|rev={}", gs.encode(), mix(seed, i), 1 + (i % 3) as usize, (i % 2 == 1) as u8), String::new());
             }
         });
         total.merge(xt);
+        let trials = if opts.tier == Tier::Quick { 60 } else { 1500 };
+        let rc = par_for(opts.jobs.min(4), 4, 1, Some(deadline), |st: &mut Stats, i: u64, _slot: &Slot| {
+            let (out, races) = crate::threads::xthread_drop_race(if i % 2 == 0 { 128 } else { 40 }, trials, i >= 2);
+            st.evaluations += races;
+            st.add("cross_thread.stream_drop_vs_fnref_drop_races", races);
+            for v in &out {
+                st.violation(v, format!("xthread_drop_race={}|n={}|rev={}", i, if i % 2 == 0 { 128 } else { 40 }, (i >= 2) as u8), String::new());
+            }
+        });
+        total.merge(rc);
     }
     Some(total)
 }
